@@ -55,7 +55,46 @@ def trees():
     ]}
     for n in t5["nodes"]:
         n["bare"] = True
+    # a sub command that declares the option the application's version flag is named after (t2: `v version`)
+    V_PROG = {"opts": [{"names": "f force", "flag": True}, {"names": "n", "flag": False}, {"names": "v verbose", "flag": True}], "args": ["X"]}
+    t2["nodes"][3] = node(["e1"], "app a1 b1 e1", g.Seq(g.Optional(g.Opt("-v")), g.Optional(X)), prog=V_PROG)
+    t2["nodes"][1] = node(["a1", "aa"], "app a1", g.Seq(g.Optional(g.Opt("-v")), X), subs=[2], prog=V_PROG)
     return [t1, t2, t3, t4, t5]
+
+
+def deep_tree():
+    """six levels, siblings declared after the path command at every level; explored with listed vectors (paths, help tokens)"""
+    names = [["app"], ["p1", "pp"], ["p2"], ["p3"], ["p4"], ["p5"]]
+    nodes = []
+    path = ""
+    for lvl, al in enumerate(names):
+        path = (path + " " + al[0]).strip()
+        nodes.append(node(al, path, g.Seq(g.Optional(F), g.Optional(X)), subs=[]))
+    # chain + a sibling after each path command
+    sib = []
+    for lvl in range(1, len(names)):
+        parent = lvl - 1
+        nodes[parent]["subs"].append(lvl)
+        sidx = len(nodes)
+        nodes.append(node(["q%d" % lvl], nodes[parent]["path"] + " q%d" % lvl, g.Seq(g.Optional(X)), subs=[]))
+        nodes[parent]["subs"].append(sidx)
+    vectors = []
+    chain = [n[0] for n in names[1:]]
+    for depth in range(0, len(chain) + 1):
+        base = chain[:depth]
+        for extra in ([], ["-h"], ["--help"], ["x"], ["-f", "-h"], ["--", "-h"], ["x", "-h"], ["-g"]):
+            vectors.append(base + extra)
+            if depth >= 1:
+                vectors.append(base[:-1] + ["q%d" % depth] + extra)
+                vectors.append(["pp"] + base[1:] + extra)
+        for k in range(depth):
+            vectors.append(base[:k] + ["-h"] + base[k:])
+            vectors.append(base[:k] + ["-f"] + base[k:] + ["--help"])
+    uniq = []
+    for v in vectors:
+        if v not in uniq:
+            uniq.append(v)
+    return {"version": "", "nodes": nodes, "vectors": uniq}
 
 
 NAME_POOL = [["c1", "k1"], ["c2"], ["d1"], ["a1", "aa"], ["b1", "bb"], ["e1"], ["e2", "ee"], ["get", "g"], ["one", "o1"], ["deep"], ["two"]]
@@ -96,7 +135,7 @@ def tla_input(trs, alphabet, maxlen, policies):
         ver = []
         if t["version"]:
             ver = [("-" if len(x) == 1 else "--") + x for x in t["version"].split()]
-        out.append({"nodes": nodes, "version": ver})
+        out.append({"nodes": nodes, "version": ver, "vectors": [[list(tok) for tok in v] for v in t.get("vectors", [])]})
     return {"trees": out, "alphabet": [list(t) for t in alphabet], "maxlen": maxlen, "policies": list(policies), "validints": ["7", "12"]}
 
 
@@ -120,7 +159,8 @@ def predict(workdir, trs, alphabet, maxlen, policies, timeout=3000):
         for lv in o["levels"]:
             lv["acc"] = refenum.norm_maps(lv["acc"])
         cases.append(o)
-    n = len(trs) * len(policies) * sum(len(alphabet) ** k for k in range(maxlen + 1))
+    per = sum(len(alphabet) ** k for k in range(maxlen + 1))
+    n = len(policies) * sum(len(t["vectors"]) if t.get("vectors") else per for t in trs)
     if len(cases) != n:
         raise core.Broken("CmdTree emitted %d cases of %d" % (len(cases), n))
     cases.sort(key=lambda c: (c["ti"], c["policy"], len(c["argv"]), c["argv"]))
